@@ -204,8 +204,8 @@ for _p, _rules in (("C01", ["CW-ALLOC-INIT", "CW-DEFER-WRAPPER"]), ("C02", ["EBR
                    ("C08", ["BIT-TAGGED"]), ("C09", ["BIT-TAGGED"]), ("C05", ["TY-SIG"]),
                    # the queue's head CAS (and the list's unlink CAS) are ABA-free only while a consumer that holds a
                    # (head, next) snapshot stays pinned: whatever re-pins a thread under a live guard breaks them
-                   ("C17", ["EBR-REACTIVATE", "EBR-COLLECT-OUTERMOST", "EBR-GUARD-COUNT"]),
-                   ("C18", ["EBR-REACTIVATE", "EBR-COLLECT-OUTERMOST", "EBR-GUARD-COUNT"]),
+                   ("C17", ["EBR-REACTIVATE", "EBR-COLLECT-OUTERMOST", "EBR-GUARD-COUNT", "EBR-INIT", "CW-DEFER-WRAPPER"]),
+                   ("C18", ["EBR-REACTIVATE", "EBR-COLLECT-OUTERMOST", "EBR-GUARD-COUNT", "CW-DEFER-WRAPPER"]),
                    # "nodes still referenced from elsewhere are skipped and survive": the cascade tells by the count alone
                    ("C06", ["MOD-AGING", "OWN-BALANCE", "OWN-PRIMITIVES"]), ("C15", ["EBR-TUNABLES"]), ("C04", ["EBR-TUNABLES"]), ("C20", ["EBR-TUNABLES"]),
                    ("C20", ["EBR-FLUSH-SCHEDULES"]),
